@@ -467,11 +467,16 @@ class TraitType(BaseTraitHandler):
                 trait.post_setattr = post_setattr
                 trait.is_mapped = self.is_mapped
 
-            comparison_mode = metadata.pop("comparison_mode", None)
+            metadata.setdefault("type", "trait")
+
+            comparison_mode = metadata.get("comparison_mode", None)
             if comparison_mode is not None:
                 trait.comparison_mode = comparison_mode
-
-            metadata.setdefault("type", "trait")
+                # The comparison mode is held by the CTrait itself; keep it
+                # out of the CTrait's metadata, but leave the metadata of this
+                # trait type intact for later calls.
+                metadata = metadata.copy()
+                del metadata["comparison_mode"]
 
         trait.set_default_value(*self.get_default_value())
 
